@@ -103,9 +103,13 @@ func (t *TCCServiceProxy) registeBranch(ctx context.Context, params interface{})
 		tccContext.ActionContext[k] = v
 	}
 
-	applicationData, _ := json.Marshal(map[string]interface{}{
+	applicationData, err := json.Marshal(map[string]interface{}{
 		constant.ActionContext: actionContext,
 	})
+	if err != nil {
+		log.Errorf("marshal action context of %s error %s ", t.GetActionName(), err.Error())
+		return err
+	}
 	branchId, err := rm.GetRMRemotingInstance().BranchRegister(rm.BranchRegisterParam{
 		BranchType:      branch.BranchTypeTCC,
 		ResourceId:      t.GetActionName(),
@@ -214,9 +218,10 @@ func (t *TCCServiceProxy) getOrCreateBusinessActionContext(params interface{}) *
 	for i := 0; i < n; i++ {
 		sf := typ.Field(i)
 		if sf.Type == rm.TypBusinessContextInterface {
-			v := val.Field(i).Interface()
-			if v != nil {
-				return v.(*tm.BusinessActionContext)
+			// a nil pointer wrapped in an interface is != nil; an unexported field cannot be read
+			f := val.Field(i)
+			if f.CanInterface() && !f.IsNil() {
+				return f.Interface().(*tm.BusinessActionContext)
 			}
 		}
 		if sf.Type == reflect.TypeOf(tm.BusinessActionContext{}) && val.Field(i).CanInterface() {
@@ -235,6 +240,10 @@ func obtainStructValueType(o interface{}) (bool, reflect.Value, reflect.Type) {
 	case reflect.Struct:
 		return true, v, t
 	case reflect.Ptr:
+		// a typed nil pointer has no fields to read; a pointer to something else is not a struct
+		if v.IsNil() || t.Elem().Kind() != reflect.Struct {
+			return false, v, nil
+		}
 		return true, v.Elem(), t.Elem()
 	default:
 		return false, v, nil
